@@ -64,18 +64,34 @@ def conform_reducer(chk, items, name="reducer"):
 
 
 def engine_lines(tr):
-    """The lines of a recorded execution that TraceEngine.tla consumes (first run only)."""
-    out = []
-    now0 = None
+    """The lines of a recorded execution that TraceEngine.tla consumes: one segment per run of the trace
+    (a resumed run = Context.from_dict + workflow.run(ctx): it starts from the recorded serialised state).
+    -> [{"now0", "resumed", "init", "next0", "log"}]"""
+    segs = {}
+    order = []
+    nsend = 0
     for r in tr:
-        if r.get("run", 1) != 1:
-            break
+        run = r.get("run", 1)
+        sg = segs.get(run)
+        if sg is None:
+            sg = segs[run] = {"now0": None, "resumed": run > 1, "init": {}, "next0": nsend, "log": [], "done": False, "bad": False}
+            order.append(run)
         e = r["e"]
-        if e == "tick":
-            if now0 is None:
-                now0 = r["now"]
+        if e == "cmd" and r["cmd"][0] == "send":
+            nsend += 1
+        if sg["done"]:
+            continue
+        out = sg["log"]
+        if e == "run_init":
+            sg["init"] = r["state"]
+            if sg["now0"] is None:
+                sg["now0"] = r["now"]
+        elif e == "tick":
+            if sg["now0"] is None:
+                sg["now0"] = r["now"]
             if "state" not in r or "wake_abs" not in r:
-                return None, None
+                sg["bad"] = True
+                continue
             out.append({"e": "tick", "tick": r["tick"], "now": r["now"], "state": r["state"], "pubs": r["pubs"],
                         "wake_abs": r["wake_abs"]})
         elif e == "step_end" and r["how"] != "cancelled":
@@ -99,8 +115,14 @@ def engine_lines(tr):
         elif e == "outcome":
             kind = {"completed": "result"}.get(r["kind"], r["kind"])
             out.append({"e": "outcome", "kind": kind})
-            break
-    return now0, out
+            sg["done"] = True
+    res = []
+    for run in order:
+        sg = segs[run]
+        if sg["bad"] or not sg["log"] or sg["now0"] is None or (sg["resumed"] and not sg["init"]):
+            continue
+        res.append({k: sg[k] for k in ("now0", "resumed", "init", "next0", "log")})
+    return res
 
 
 def conform_engine(chk, items, name="engine"):
@@ -122,9 +144,8 @@ def conform_engine(chk, items, name="engine"):
             trs = rng.sample(trs, cap)
         traces = []
         for (tr, sched) in trs:
-            now0, lines = engine_lines(tr)
-            if lines:
-                traces.append(({"now0": now0, "log": lines}, sched))
+            for seg in engine_lines(tr):
+                traces.append((seg, sched))
         if traces:
             jobs.append((gi, label, d, dev, traces))
 
@@ -145,7 +166,7 @@ def conform_engine(chk, items, name="engine"):
 
     with ThreadPoolExecutor(max_workers=8) as ex:
         results = list(ex.map(one, jobs))
-    ok = lines_ok = unsupported = 0
+    ok = lines_ok = unsupported = resumed_ok = 0
     drift = []
     for (gi, label, d, dev, traces), res in zip(jobs, results):
         if res.error or res.violated:
@@ -160,6 +181,7 @@ def conform_engine(chk, items, name="engine"):
             clause, at = seen.get(i, ("no_verdict", 0))
             if clause == "ok":
                 ok += 1
+                resumed_ok += 1 if t.get("resumed") else 0
                 lines_ok += len(t["log"])
             elif clause.startswith("unsupported:"):
                 unsupported += 1
@@ -170,6 +192,7 @@ def conform_engine(chk, items, name="engine"):
     for (label, clause, at, line, sched) in drift[:5]:
         chk.note("conformance drift: the recorded execution is not a behaviour of Engine.tla -- %s at line %d of %s: %s (schedule %s)" % (
             clause, at, label, json.dumps(line)[:300], sched_str(sched, 12)))
+    chk.add(engine_resumed_runs_validated=resumed_ok)
     chk.add(engine_traces_validated=ok, engine_lines_matched=lines_ok, engine_trace_drift=len(drift),
             engine_traces_with_unsupported_driver_action=unsupported)
     return ok, drift
